@@ -930,7 +930,7 @@ func canonChain(a *Atom) Expr {
 			}
 		}
 	}
-	if len(bs) > 6 {
+	if len(bs) > 16 {
 		return atomExpr(a)
 	}
 	// cheap canonical order: sort binders by a name-independent occurrence signature when it separates them
